@@ -27,6 +27,16 @@ CHECKS = {
             "Hang = SIGXCPU after 10 CPU-seconds on a 15-entry tree; interactive mode gets EOF; FIFOs excluded; "
             "which well-formed-looking soups parse is not asserted.",
             "DESIGN.md 4 C10"),
+    "C15": ("exploration",
+            "property-based testing (Hypothesis): generated expression ASTs, differential against an f64 reference "
+            "evaluator plus metamorphic column-independence and WHERE-vs-own-value relations",
+            "Generated arithmetic expressions (depth <= 4, symbols and word operators, brackets, unary minus, scalar "
+            "calls) in select lists of 1..5 columns with deliberately confusable neighbours: every printed cell must "
+            "equal the reference value, be identical alone / in company / in reversed order, and `where e OP c` must "
+            "select exactly the entries whose own printed value satisfies it. Sampling, not proof.",
+            "Reference evaluator is IEEE f64 in Python (math.fmod, math.pow), relative tolerance 1e-12; division by "
+            "zero, |v| > 2^50 and `-(...)` are outside the generated domain.",
+            "DESIGN.md 4 C15"),
 }
 
 PENDING = {}
